@@ -58,7 +58,10 @@ type StorageCar struct {
 	opts       carv2.Options
 
 	closed bool
-	mu     sync.RWMutex
+	// writeErr is the first error returned by a write of a section; after it the output
+	// may end in a partial section, so further writes or finalization would corrupt it.
+	writeErr error
+	mu       sync.RWMutex
 }
 
 type positionedWriter interface {
@@ -321,6 +324,9 @@ func (sc *StorageCar) Put(ctx context.Context, keyStr string, data []byte) error
 	if !ok || sc.writer == nil {
 		return fmt.Errorf("cannot put into a read-only CAR")
 	}
+	if sc.writeErr != nil {
+		return fmt.Errorf("cannot put into a CAR storage after a failed write: %w", sc.writeErr)
+	}
 
 	if should, err := store.ShouldPut(
 		idx,
@@ -341,6 +347,7 @@ func (sc *StorageCar) Put(ctx context.Context, keyStr string, data []byte) error
 	}
 	n := uint64(w.Position())
 	if err := util.LdWrite(w, keyCid.Bytes(), data); err != nil {
+		sc.writeErr = err
 		return err
 	}
 	idx.InsertNoReplace(keyCid, n)
@@ -483,6 +490,9 @@ func (sc *StorageCar) Finalize() error {
 		if sc.closed {
 			return fmt.Errorf("called Finalize on a closed storage CAR")
 		}
+		if sc.writeErr != nil {
+			return fmt.Errorf("cannot finalize a CAR storage after a failed write: %w", sc.writeErr)
+		}
 		sc.closed = true
 		return nil
 	}
@@ -499,6 +509,9 @@ func (sc *StorageCar) Finalize() error {
 		// Allow duplicate Finalize calls, just like Close.
 		// Still error, just like ReadOnly.Close; it should be discarded.
 		return fmt.Errorf("called Finalize on a closed storage CAR")
+	}
+	if sc.writeErr != nil {
+		return fmt.Errorf("cannot finalize a CAR storage after a failed write: %w", sc.writeErr)
 	}
 
 	sc.closed = true
